@@ -609,7 +609,7 @@ Proof.
     exfalso. apply gloop_none_all in G; [|lia|intros j b' Hj; apply small_field_F with (fields := fields); lia].
     destruct G as [_ G]. specialize (G i Hi). cbv beta in G.
     destruct (try_find_claim_field bm i count) as [r bm1] eqn:Et. cbn [fst] in G. subst r.
-    apply claim_field_complete in Et; try assumption; try lia. exact (Et b Hfree).
+    pose proof (claim_field_complete _ _ _ _ Hok H1 ltac:(lia) Et) as Hcf. exact (Hcf b Hfree).
 Qed.
 
 (* ---- the limitation of claims of more than 2 bits: nothing starts in a field whose top bit is set ---- *)
